@@ -142,7 +142,7 @@ def run(tid: str, raw_or_path, history: list[dict], xsd: bool = False) -> dict:
             if s.has_notes_slide:
                 out.update("notes:" + e for e in X.errors(s.notes_slide._element))
         return sorted(out)
-    steps = [{"a": {"op": "open", "l": 0, "k": 0, "j": 0, "x": 0, "y": 0, "cx": 0, "cy": 0}, "out": "ok", "t": observe(prs), "notes": [], "xsd": mon()}]
+    steps = [{"a": {"op": "open", "l": 0, "k": 0, "j": 0, "x": 0, "y": 0, "cx": 0, "cy": 0}, "out": "ok", "t": observe(prs), "notes": [], "lay": [], "xsd": mon()}]
     nmas = []
     for a in history:
         a = dict({"l": 0, "k": 0, "j": 0, "x": 0, "y": 0, "cx": 0, "cy": 0}, **a)
@@ -162,6 +162,12 @@ def run(tid: str, raw_or_path, history: list[dict], xsd: bool = False) -> dict:
                 ns = s.notes_slide
                 notes = read_phs(ns.part._element, list(ns.shapes))
                 nmas = read_phs(prs.notes_master.part._element)
+            elif a["op"] in ("dropPh", "movePh"):
+                tree = lays[a["l"] - 1].part._element.cSld.spTree
+                el = _ph_elms(lays[a["l"] - 1].part._element)[a["j"] - 1][0]
+                el.getparent().remove(el)
+                if a["op"] == "movePh":
+                    tree.insert_element_before(el, "p:extLst")
             elif a["op"] == "reopen":
                 b = io.BytesIO()
                 prs.save(b)
@@ -170,5 +176,6 @@ def run(tid: str, raw_or_path, history: list[dict], xsd: bool = False) -> dict:
             out = "ok"
         except Exception as e:
             out = type(e).__name__ + ":" + str(e)[:100]
-        steps.append({"a": a, "out": out if out == "ok" else out.split(":")[0], "err": out, "t": observe(prs), "notes": notes, "xsd": mon()})
+        now = read_phs(lays[a["l"] - 1].part._element) if a["l"] else []
+        steps.append({"a": a, "out": out if out == "ok" else out.split(":")[0], "err": out, "t": observe(prs), "notes": notes, "lay": now, "xsd": mon()})
     return {"id": tid, "lay": lay, "mas": mas, "nmas": nmas, "steps": steps}
